@@ -15,7 +15,10 @@
   `feedAll s q [(c₁,f₁),…]` delivers `c₁ … cₙ` one after the other with FIN flags
   `f₁ … fₙ`; `recvReq s q b fin` is ONE delivery of `b`.
 -/
-import AQ.Proofs.H3Roundtrip
+import AQ.Proofs.H3Roundtrip2
+import AQ.Proofs.H3Conn
+import AQ.Proofs.H3Block
+import AQ.Proofs.H3Uni
 namespace AQ.Props.C14
 open AQ AQ.H3
 
@@ -199,6 +202,105 @@ theorem blockedPush_fixed :
     (runConn (Conn.init (client {}) false) [ppStream, encStream]).map (normOf 0) := by
   decide +kernel
 
+/-! ## the connection-level step -/
+
+/-- `chunk_independent` lifted through `H3Connection.handle_event`: for a
+    connection `c` that is not done, a request (bidirectional) stream id whose
+    `H3Stream` — looked up in, or created into, the stream table exactly as
+    `_get_or_create_stream` does — has received no frame byte yet, feeding
+    `StreamDataReceived(c₁) … (cₙ) (last, fin)` one event at a time
+    (`feedConn`, which includes the table store and the `is_ended()` clean-up
+    after every event) is `CEq` to feeding ONE `StreamDataReceived(c₁++…++last, fin)`:
+    the same exception escapes; or both return with the same done flag and
+    close code and, unless the HTTP/3 layer closed the connection, the same
+    connection state (settings, stream table, QPACK state) and event lists of
+    the same per-stream normal form. -/
+theorem chunk_independent_connection (o : Oracle σ) (hnb : NonBlocking o) (c : Conn σ)
+    (ht : c.cfg.k.truncatedNoError = false) (hsil : c.cfg.k.silentFrameNoEnd = false)
+    (hlog : c.cfg.k.logDecode = false) (hnd : c.isDone = false) (sid : Nat) (hb : isUni sid = false)
+    (hs : Fresh (streamOf c sid)) (chunks : List Bytes) (last : Bytes) (fin : Bool) :
+    CEq (feedConn o c sid (chunks.map (·, false) ++ [(last, fin)]))
+        (handleEvent o c (.streamData sid (chunks.flatten ++ last) fin)) :=
+  conn_chunk_independent o hnb c ht hsil hlog hnd sid hb hs chunks last fin
+
+/-! ## unidirectional streams -/
+
+/-- chunk independence of `_receive_stream_data_uni` for EVERY stream type — the
+    stream-type varint itself (possibly split), the control stream (SETTINGS,
+    MAX_PUSH_ID, every other frame, handled when complete), push streams (push id,
+    then the request parser), WebTransport streams (session id, then raw bytes),
+    the QPACK encoder and decoder streams, and unknown types (discarded) — on a
+    stream on which nothing has been received yet (`UniFresh`):
+    `uniFeed` (deliveries one by one) is `UEq` to ONE delivery (`uniCore`): same
+    error; or same connection fields (settings, peer stream ids, max push id,
+    QPACK state), same `H3Stream`, same list of unblocked stream ids, and events
+    of the same per-stream normal form.
+
+    Oracle hypotheses, stated explicitly: `DecAdditive o` / `EncAdditive o` — the
+    QPACK stream consumers are chunk-additive (`feed (a ++ b)` = `feed a; feed b`,
+    unblocked ids concatenated, an error of a part is an error of the whole,
+    `feed b""` is a no-op); `NonBlocking o` for the header blocks of push streams.
+
+    `_partial`, what is missing: (1) `uniCore` is `_receive_stream_data_uni` up to,
+    not including, the `for stream_id in unblocked_streams` loop and the store
+    into the stream table (with an additive oracle the resumes of the chunked run
+    happen between the feeds, which needs `Qpack.deterministic`-style commutation);
+    (2) `hctl`: a FIN is not considered on the control stream — there the close
+    code depends on the chunking in the CODE: `00 0d 01 05` + FIN in one delivery
+    closes with H3_CLOSED_CRITICAL_STREAM (0x104), with the FIN delivered alone
+    with H3_MISSING_SETTINGS (0x10a); both close the connection, no events. -/
+theorem uni_chunk_independent_partial (o : Oracle σ) (hnb : NonBlocking o) (hdec : DecAdditive o)
+    (henc : EncAdditive o) (c : Conn σ) (ht : c.cfg.k.truncatedNoError = false)
+    (hsil : c.cfg.k.silentFrameNoEnd = false) (hlog : c.cfg.k.logDecode = false)
+    {s : Stream} (hs : UniFresh s) (chunks : List Bytes) (last : Bytes) (fin : Bool)
+    (hctl : fin = false ∨ ∀ r, pullVarint (chunks.flatten ++ last) ≠ some (0, r)) :
+    UEq (uniFeed o c s (chunks.map (·, false) ++ [(last, fin)]))
+        (uniCore o c s (chunks.flatten ++ last) fin) :=
+  uniFeed_chunks o hnb hdec henc c ht hsil hlog hs chunks last fin hctl
+
+/-! ## interleaving with the QPACK encoder stream -/
+
+/-- `Qpack.deterministic`: if a header block is blocked (`decode` in state `q`),
+    the encoder-stream bytes `eb` unblock exactly that stream, and the same bytes
+    fed BEFORE the block unblock nothing, then `resume` yields the header list and
+    decoder state that the unblocked `decode` yields. -/
+def QpackDeterministic (o : Oracle σ) : Prop :=
+  ∀ (q qb qb' qa : σ) (sid : Nat) (blk eb : Bytes),
+    o.decode q sid blk = (.blocked, qb) → o.feedEncoder qb eb = (.unblocked [sid], qb') →
+    o.feedEncoder q eb = (.unblocked [], qa) →
+    ∃ hs qf, o.resume qb' sid = (.headers hs, qf) ∧ o.decode qa sid blk = (.headers hs, qf)
+
+/-- "…not on … how deliveries of different streams are interleaved … including
+    when header compression makes a request wait for the encoder stream":
+    a request stream `HEADERS(blk), rest…` (any `rest`, FIN flag `fin`) delivered
+    in one piece, and encoder-stream bytes `eb` delivered in one piece, in both
+    orders.  Order B (request first): the request delivery yields NO event and
+    leaves the stream blocked (`blockedState`), and the encoder delivery — which
+    reports the stream unblocked — runs `resumeStream` on it.  Order A (encoder
+    first: no event, decoder state `qa`): the request delivery is `recvReq … qa`.
+    Under `QpackDeterministic` both yield the same error, or the same final
+    `H3Stream`, decoder state and normal form of events.
+
+    `_partial`, what is missing: both streams in single deliveries (chunked
+    deliveries while blocked are not covered); the blocked frame is the first
+    HEADERS frame of the stream (not trailers, not PUSH_PROMISE); one blocked
+    stream; the connection-level plumbing (`recvUni`'s table lookups, and the
+    `is_ended()` clean-up, which in order B does not run for the unblocked stream
+    until its next event) is only covered by the differential runs. -/
+theorem interleave_independent_partial (o : Oracle σ) (cfg : Cfg) (hdet : QpackDeterministic o)
+    {S : Stream} (hS : Fresh S) (hrs : S.p.recvState ≠ .afterTrailers)
+    (hbfs : S.blockedFrameSize = none) (hbp : S.blockedPush = none)
+    (q qb qb' qa : σ) (blk fH rest eb : Bytes) (fin : Bool) (hfH : encodeFrame 1 blk = some fH)
+    (hB1 : o.decode q S.p.streamId blk = (.blocked, qb))
+    (hB2 : o.feedEncoder qb eb = (.unblocked [S.p.streamId], qb'))
+    (hA1 : o.feedEncoder q eb = (.unblocked [], qa)) :
+    recvReq o cfg S q (fH ++ rest) fin = .ok (blockedState S fin blk.length rest, qb, []) ∧
+    REq (resumeStream o cfg (blockedState S fin blk.length rest) qb')
+        (recvReq o cfg S qa (fH ++ rest) fin) := by
+  obtain ⟨hs, qf, hres, hdecA⟩ := hdet q qb qb' qa S.p.streamId blk eb hB1 hB2 hA1
+  exact ⟨recvReq_blocks o cfg varint_law hS hrs q qb blk fH rest fin hfH hB1,
+    resume_eq_unblocked o cfg varint_law hS hrs hbfs hbp qa qb' qf blk fH rest fin hs hfH hres hdecA⟩
+
 /-! ## the stream table -/
 
 theorem lookupS_eraseS_ne (i sid : Nat) (l : List (Nat × H3.Stream)) (h : i ≠ sid) :
@@ -299,6 +401,32 @@ theorem send_recv_roundtrip (o : Oracle σ) (cfg : Cfg) (hnb : NonBlocking o)
     hfH hfD hdec hval hclv
   rw [← hb] at hw
   obtain ⟨evs', hf, hn'⟩ := chunk_independent_events o cfg hnb ht hsil hlogq hs q chunks last true s' q2 evs hw
+  exact ⟨s', evs', hf, (hn' _).trans hn⟩
+
+/-- the same for `send_headers(hs)`, ANY number of `send_data(dᵢ)` (bodies of any
+    sizes, `EncData ds fs`), and `send_headers(trailers, end_stream=True)`, cut
+    into any deliveries: header block, concatenated body, trailers, ended. -/
+theorem send_recv_roundtrip_trailers (o : Oracle σ) (cfg : Cfg) (hnb : NonBlocking o)
+    (ht : cfg.k.truncatedNoError = false) (hsil : cfg.k.silentFrameNoEnd = false)
+    (hlogq : cfg.k.logDecode = false) (hlog : cfg.logging = false)
+    {s : Stream} (hs : Fresh s) (hst : s.p.recvState = .initial) (hecl : s.p.expectedCL = none)
+    (hcl0 : s.p.contentLength = 0) (q q1 q2 q3 q4 : σ) (blk blkT fH fT : Bytes) (ds fs : List Bytes)
+    (hdrs hdrsT : Headers) (cl clT : Option Nat)
+    (hfH : encodeFrame 1 blk = some fH) (hfs : EncData ds fs) (hfT : encodeFrame 1 blkT = some fT)
+    (hdec : o.decode q s.p.streamId blk = (.headers hdrs, q1))
+    (hval : o.validate q1 (if cfg.isClient then .response else .request) hdrs = (.ok cl, q2))
+    (hdecT : o.decode q2 s.p.streamId blkT = (.headers hdrsT, q3))
+    (hvalT : o.validate q3 .trailers hdrsT = (.ok clT, q4))
+    (hclv : cl = none ∨ cl = some (totalLen ds))
+    (chunks : List Bytes) (last : Bytes) (hb : chunks.flatten ++ last = fH ++ (fs.flatten ++ fT)) :
+    ∃ s' evs, feedAll o cfg s q (chunks.map (·, false) ++ [(last, true)]) = .ok (s', q4, evs) ∧
+      normOf s.p.streamId evs =
+        { headers := [(hdrs, s.p.pushId), (hdrsT, s.p.pushId)], body := ds.flatten, pushes := [], wt := [],
+          wtSession := none, datagrams := [], ended := true } := by
+  obtain ⟨s', evs, hw, hn⟩ := recv_headers_datas_trailers o cfg varint_law hlog hs hst hecl hcl0 q q1 q2 q3 q4
+    blk blkT fH fT ds fs hdrs hdrsT cl clT hfH hfs hfT hdec hval hdecT hvalT hclv
+  rw [← hb] at hw
+  obtain ⟨evs', hf, hn'⟩ := chunk_independent_events o cfg hnb ht hsil hlogq hs q chunks last true s' q4 evs hw
   exact ⟨s', evs', hf, (hn' _).trans hn⟩
 
 /-- the hypotheses are satisfiable -/
